@@ -28,9 +28,23 @@
 from __future__ import annotations
 
 import dataclasses
-from dataclasses import dataclass
+from dataclasses import dataclass, field
 from typing import Optional, Dict, List, Any
 
+
+def parse_bool(value: Any) -> bool:
+  """Decodes a boolean configuration value, which must be a JSON boolean (true or false)"""
+  if not isinstance(value, bool):
+    raise ValueError(f"Boolean value (true or false) expected instead of {value!r}")
+
+  return value
+
+def _parse_log_level(value: Any) -> Optional[str]:
+  """Decodes the log level, which must be a string"""
+  if value is not None and not isinstance(value, str):
+    raise ValueError(f"Log level name expected instead of {value!r}")
+
+  return value
 
 class ModuleConfiguration:
   """Base class for module configurations"""
@@ -86,8 +100,8 @@ class ModuleConfiguration:
 @dataclass
 class GeneralConfiguration(ModuleConfiguration):
   """TT general configuration"""
-  log_level: Optional[str] = "INFO"
-  progress_bar: Optional[bool] = True
+  log_level: Optional[str] = field(default="INFO", metadata={"decoder": _parse_log_level})
+  progress_bar: Optional[bool] = field(default=True, metadata={"decoder": parse_bool})
   document_lang: Optional[str] = None
 
   @classmethod
